@@ -30,7 +30,10 @@ Record argdef := {
   a_excl : list key; a_req : list key; a_depr : bool
 }.
 
-Inductive gcon := GCAll (ks : list key) | GCAny (ks : list key) | GCOne (ks : list key).
+Inductive gcon :=
+| GCAll (ks : list key) | GCAny (ks : list key) | GCOne (ks : list key)
+| GCDiffer (ixs : list nat)        (* value constraint differ: indices of the listed arguments *)
+| GCDisjoint (i j : nat).         (* value constraint disjoint *)
 
 (** [fixed_notify = true] : handleIdentifiedArg notifies the constraint
     container with the argument's own key (after "fix: ..."); [false] : with the
@@ -276,7 +279,7 @@ Fixpoint remove_first_key (ks : list key) (k : key) : list key :=
   end.
 
 Definition gc_init (g : gcon) : gst :=
-  match g with GCAll ks => GSAll ks | GCAny _ | GCOne _ => GSUsed false end.
+  match g with GCAll ks => GSAll ks | _ => GSUsed false end.
 
 (** IHandlerConstraint::executeConstraint( key of the identified argument) *)
 Definition gc_exec (g : gcon) (s : gst) (k : key) : res gst :=
@@ -293,17 +296,47 @@ Fixpoint gcs_exec (gs : list gcon) (ss : list gst) (k : key) : res (list gst) :=
   | _, _ => Ok []
   end.
 
+(** TypedArg<T>::compareValue(...) == 0 resp. ContainerAdapter::hasIntersection *)
+Definition val_eqb (a b : value) : bool :=
+  match a, b with
+  | VInt x, VInt y => Z.eqb x y
+  | VStr x, VStr y => str_eqb x y
+  | _, _ => false
+  end.
+
+Definition val_intersect (a b : value) : bool :=
+  match a, b with
+  | VInts l1, VInts l2 => existsb (fun x => z_in x l2) l1
+  | VStrs l1, VStrs l2 => existsb (fun x => str_in x l2) l1
+  | _, _ => false
+  end.
+
+(** ValueConstraintDiffer::checkEndCondition: two different listed arguments
+    that both hold a value may not hold the same value *)
+Definition differ_clash (as_ : list art) (ixs : list nat) : bool :=
+  existsb (fun i =>
+    let a1 := nth i as_ {| hasval := false; cnt := 0; clearp := false; val := VBool false; v2set := false |} in
+    hasval a1 &&
+    existsb (fun j =>
+      let a2 := nth j as_ {| hasval := false; cnt := 0; clearp := false; val := VBool false; v2set := false |} in
+      negb (Nat.eqb i j) && hasval a2 && val_eqb (val a1) (val a2)) ixs) ixs.
+
 (** checkEndCondition *)
-Definition gc_end (g : gcon) (s : gst) : res unit :=
+Definition gc_end (as_ : list art) (g : gcon) (s : gst) : res unit :=
   match g, s with
   | GCAll _, GSAll rem => match rem with [] => Ok tt | _ => Err ERuntime end
   | GCOne _, GSUsed u => if u then Ok tt else Err ERuntime
+  | GCDiffer ixs, _ => if differ_clash as_ ixs then Err ERuntime else Ok tt
+  | GCDisjoint i j, _ =>
+      let d := {| hasval := false; cnt := 0; clearp := false; val := VBool false; v2set := false |} in
+      let a1 := nth i as_ d in let a2 := nth j as_ d in
+      if hasval a1 && hasval a2 && val_intersect (val a1) (val a2) then Err ERuntime else Ok tt
   | _, _ => Ok tt
   end.
 
-Fixpoint gcs_end (gs : list gcon) (ss : list gst) : res unit :=
+Fixpoint gcs_end (as_ : list art) (gs : list gcon) (ss : list gst) : res unit :=
   match gs, ss with
-  | g :: gr, s :: sr => do _ <- gc_end g s; gcs_end gr sr
+  | g :: gr, s :: sr => do _ <- gc_end as_ g s; gcs_end as_ gr sr
   | _, _ => Ok tt
   end.
 
@@ -439,7 +472,7 @@ Fixpoint check_mandatory_card (ds : list argdef) (as_ : list art) : res unit :=
 Definition final_checks (c : cfg) (s : hstate) : res unit :=
   do _ <- check_mandatory_card (args c) (arts s);
   do _ <- pend_check_required (pend s);
-  gcs_end (gcons c) (gsts s).
+  gcs_end (arts s) (gcons c) (gsts s).
 
 Definition init_art (d : argdef) (v0 : value) : art :=
   {| hasval := match v0 with VInts (_ :: _) | VStrs (_ :: _) | VOpt (Some _) => true | _ => false end;
